@@ -13,7 +13,11 @@
 EXTENDS Integers, Sequences, TLC, Json
 
 Ops == {"build", "new", "append", "append_after_reload"}
-Faults == {"error", "eof", "unexpected_eof", "zero_then_error"}   \* how the source fails after k bytes
+\* how the source fails after k bytes (persistently: every later Read fails the same way).  The error VALUE is part of the fault
+\* space because callers special-case some of them: io.EOF / a wrapped io.EOF, io.ErrUnexpectedEOF, errors with Temporary() or
+\* Timeout() (EAGAIN, EINTR, deadline exceeded), a *PathError; "..._with_data" = the last bytes and the error arrive in ONE Read.
+Faults == {"error", "eof", "unexpected_eof", "zero_then_error", "temporary", "interrupted", "deadline", "wrapped_eof",
+           "path_error", "error_with_data", "eof_with_data"}
 Chunks == {1, 7, 32}                                               \* maximal bytes per Read call (short reads)
 
 VARIABLES op, k, fault, chunk, pos, outcome
